@@ -34,6 +34,7 @@ func runC03(c *Ctx) {
 	c.Rule("C03.R6", "every acting phase re-checks through processError", 10)
 	c.Rule("C03.R7", "wake-up token: confined one-slot channel, non-blocking send, drained before every re-entry of the phase machine", 5)
 	c.Rule("C03.R8", "the retry-in-preparation flag is consumed where the retry decision is taken; single setter", 2)
+	c.Rule("C03.R12", "cleanStream is called only where the exchange has a terminal outcome (frozen who-may-call table with guards)", 7)
 	c.Rule("C03.R11", "a try ended by the global timeout never reaches a positive retry decision", 1)
 	c.Rule("C03.R10", "response-started is raised only where the response headers are written to the client", 1)
 	c.NotDecided = append(c.NotDecided, "bounded completion time itself (liveness)", "that cleanStream is eventually reached for every request", "behaviour under concrete interleavings")
@@ -438,6 +439,7 @@ func runC03(c *Ctx) {
 	c03WinnerProduces(c, pkg)
 	c03StartedMeansWritten(c, pkg)
 	globalTimeoutFinal(c, pkg, "C03.R11")
+	c03CleanOnlyOnTerminalOutcome(c, pkg)
 }
 
 // c03Notify (R7): the wake-up token of the phase machine.
@@ -799,5 +801,90 @@ func c03StartedMeansWritten(c *Ctx, pkg string) {
 	}
 	if n < 1 {
 		c.Unresolved("C03.R10", "store of true to downStream.downstreamResponseStarted")
+	}
+}
+
+// c03CleanOnlyOnTerminalOutcome (R12): the exchange is ended without (further) reply only where it has a terminal outcome.
+// cleanStream recycles the request and ends the exchange; whatever has not been written to the client by then never will
+// be. Clause, who-may-call with the guard each site stands behind (frozen table, confirmed by reading):
+//
+//	endStream                      the response has been written completely
+//	ResetStream                    the client is gone
+//	receiver/senderFilterStatusHandler   a filter answered StreamFiltertermination
+//	OnReceive (recover handler)    the worker panicked
+//	receive, phase Oneway          a one-way request has been forwarded
+//	receiveData / receiveTrailers  only under upstreamProcessDone.Load(): the upstream's response was already sent in full
+//	                               while the request body was still arriving
+//
+// In particular an upstream *reset* observed inside receiveData/receiveTrailers is not a terminal outcome: it has to go
+// through processError -> onUpstreamReset, which retries or answers 502/504.
+func c03CleanOnlyOnTerminalOutcome(c *Ctx, pkg string) {
+	clean := c.M(pkg, "downStream", "cleanStream")
+	if clean == nil {
+		c.Unresolved("C03.R12", "downStream.cleanStream")
+		return
+	}
+	type ctxGuard int
+	const (
+		anywhere ctxGuard = iota
+		underTermination
+		underUpstreamDone
+		underOneway
+	)
+	table := map[string]ctxGuard{
+		"endStream": anywhere, "ResetStream": anywhere, "OnReceive": anywhere,
+		"receiverFilterStatusHandler": underTermination, "senderFilterStatusHandler": underTermination,
+		"receive": underOneway, "receiveData": underUpstreamDone, "receiveTrailers": underUpstreamDone,
+	}
+	n := 0
+	ord := ordCounter{}
+	for _, fn := range c.PkgFuncs(pkg) {
+		for _, cs := range callsIn(fn, false, func(cc *ssa.CallCommon) bool { return cc.StaticCallee() == clean }) {
+			n++
+			top := fn
+			for top.Parent() != nil {
+				top = top.Parent()
+			}
+			want, known := table[top.Name()]
+			ok := known
+			why := "cleanStream is called from " + top.Name() + ", which is not one of the places where an exchange has a terminal outcome"
+			if known {
+				gs := guardsAt(cs.Instr.Block())
+				switch want {
+				case underTermination:
+					ok = false
+					for _, g := range gs {
+						if bo, isBO := g.Cond.(*ssa.BinOp); isBO && bo.Op == token.EQL && g.True {
+							if s, isK := constStringVal(bo.Y); isK && s == "termination" {
+								ok = true
+							}
+						}
+					}
+					why = "not under status == StreamFiltertermination"
+				case underUpstreamDone:
+					ok = false
+					for _, g := range gs {
+						if call, isCall := g.Cond.(*ssa.Call); isCall && g.True && methodName(call.Common()) == "Load" && len(call.Common().Args) > 0 {
+							if _, f, _, okf := fieldAddrInfo(call.Common().Args[0]); okf && f == "upstreamProcessDone" {
+								ok = true
+							}
+						}
+					}
+					why = "in " + top.Name() + " the exchange is ended under a condition other than upstreamProcessDone.Load()"
+				case underOneway:
+					ok = false
+					for _, g := range gs {
+						if _, f, _, okf := loadedField(g.Cond); okf && f == "oneway" && g.True {
+							ok = true
+						}
+					}
+					why = "not under s.oneway"
+				}
+			}
+			c.Check("C03.R12", ord.next(fn, "clean-only-on-terminal-outcome"), cs.Instr.Pos(), ok, "cleanStream behind the guard confirmed for "+top.Name(), "the exchange can be ended without a reply where it has no terminal outcome ("+why+"): e.g. an upstream reset seen while the request body is still being forwarded must go through onUpstreamReset, which retries or answers 502/504 - cleaned on the spot, the client gets nothing")
+		}
+	}
+	if n < 7 {
+		c.Unresolved("C03.R12", fmt.Sprintf("call sites of downStream.cleanStream (found %d)", n))
 	}
 }
